@@ -178,8 +178,6 @@ def main():
         tasks = mod.tasks(tier)
         for task in tasks:
             h = build_harness(prop, task, contracts)
-            if args.only and not re.search(args.only, h.name):
-                continue
             if any(h.name == x.name for x in harnesses):
                 raise GenError('two tasks produce the same harness name %s: give them distinct labels' % h.name)
             harnesses.append(h)
@@ -188,6 +186,8 @@ def main():
                 sh.fn_key = h.fn_key + ' (one iteration, scalarised)'
                 sh.notes = []
                 harnesses.append(sh)
+        if args.only:
+            harnesses = [h for h in harnesses if re.search(args.only, h.name)]
         # every pure lemma used by some harness is proved in its own harness
         used = sorted(set(n for h in harnesses for n in getattr(h, 'used_lemmas', [])))
         from gen import lemma_harness
